@@ -224,8 +224,13 @@ def classify(name, args, r1, r2):
     return None
 
 
+def fresh_int(v):
+    """The int spelling as a NEW object every time (as numberParseInt, arrayLength, jsonParse produce it) - never a cached constant."""
+    return int(str(int(v)))
+
+
 def one_case(name, args, acc, api):
-    a1 = conv(copy.deepcopy(args), int)
+    a1 = conv(copy.deepcopy(args), fresh_int)
     a2 = conv(copy.deepcopy(args), float)
     r1 = call(name, a1, api)
     r2 = call(name, a2, api)
@@ -321,6 +326,9 @@ def run_library(spec, acc, api):
     for v, d in ((983895159459682, 2), (95, 20), (5, 17), (123456789012345, 1), (999999999999999, 3)):
         one_case('mathRound', [v, d], acc, api)
         one_case('numberToFixed', [v, d], acc, api)
+    for pair in ([1000, 1000], [123456789, 123456789], [257, 257], [-6, -6], [10 ** 14, 10 ** 14], [[1000], [1000]], [1000, 1001]):
+        one_case('systemIs', list(pair), acc, api)
+        one_case('systemCompare', list(pair), acc, api)
     for arr in ([3, 1, 2], [10, 9, 8, 7, 1], [2, 2, 1, 3, 0, -1], [5, 4]):
         one_case('arraySort', [list(arr), host_minus], acc, api)
         one_case('arrayIndexOf', [list(arr), host_half], acc, api)
@@ -372,6 +380,30 @@ def run_operators(acc, api):
                             acc.violation('operator-result-not-a-value', f'{a} {op} {b} ({order}): {r[1]!r}', {'op': op, 'a': a, 'b': b})
                     if not (res[0][0] == res[1][0] and (res[0][0] != 'ok' or eq12(res[0][1], res[1][1]))):
                         acc.violation('operator-int-float-differs', f'{a} {op} {b} ({order}): int spelling {res[0]!r:.120}, float spelling {res[1]!r:.120}', {'op': op, 'a': a, 'b': b})
+    # trivial bases with huge exponents, huge bases with trivial exponents (both spellings)
+    for a, b in [(1, 1024), (1, 2000), (0, 5000), (-1, 1025), (-1, 2048), (2, 1023), (2, 1024), (10, 308), (10, 309), (7, 0), (10 ** 14, 1), (10 ** 14, 0)]:
+        e = {'binary': {'op': '**', 'left': {'variable': 'aa'}, 'right': {'variable': 'bb'}}}
+        res = []
+        for fa, fb in ((fresh_int, fresh_int), (float, float), (fresh_int, float), (float, fresh_int)):
+            try:
+                res.append(('ok', evaluate_expression(e, {'globals': {'aa': fa(a), 'bb': fb(b)}}, None, False)))
+            except Exception as exc:  # pylint: disable=broad-except
+                res.append(('exc', type(exc).__name__))
+        acc.case(('pow-edge', a, b), True)
+
+        def same_pow(x, y):
+            if x[0] != y[0]:
+                return False
+            if x[0] != 'ok' or x[1] is None or y[1] is None:
+                return x[1] is None and y[1] is None if x[0] == 'ok' else True
+            try:
+                return float(x[1]) == float(y[1])
+            except OverflowError:
+                return False
+        # an exact huge integer (int spelling) and null / inf-overflow (float spelling) differ legitimately only beyond the float range
+        if a in (0, 1, -1) or abs(b) <= 1 or (abs(a) ** abs(b) < 2 ** 1000):
+            if not all(same_pow(r, res[0]) for r in res):
+                acc.violation('operator-int-float-differs', f'{a} ** {b}: int/int, float/float, int/float, float/int -> {res!r:.300}', {'op': '**', 'a': a, 'b': b})
     # datetime arithmetic with large millisecond counts (up to 1e15): the offset in both spellings, both operand orders
     base_dt = [datetime.datetime(1970, 1, 1), datetime.datetime(2000, 2, 29, 12, 30, 15, 123000), datetime.date(1999, 12, 31)]
     for n in [1, 1001, 86400000, 72000000000001, 123456789012345, 99999999999999, 999999999999999, -123456789012345, 2 ** 46 + 1, 10 ** 14 + 7, 31536000000 * 1500 + 1]:
